@@ -173,7 +173,7 @@ def run(ctx):
         return
     if drv is None:
         return
-    n = 700 if ctx.quick else 12000
+    n = 400 if ctx.quick else 12000
     if ctx.broken:
         n *= 5
     seed0 = ctx.seed * 1000003
